@@ -197,11 +197,13 @@ fn parse_side(ctx: &mut Ctx, arena: &Arena) {
 /// Long declared contents: every length 0..=80 and the counter boundaries, the first NUL at the start / middle /
 /// last byte / absent, plain ASCII or with a multi-byte character or an invalid byte next to the terminator.
 fn parse_long(ctx: &mut Ctx, small: &Arena, large: &Arena) {
-    ctx.bound("parse_long", "declared contents of every length 0..=80 and 255..257, 1023..1025, 4095..4097, 65535..65537, 2^20 + 1, 2^24 - 1..2^24 + 1 (thorough tier): first NUL at position {none, 0, len/2, len-2, len-1} x {ASCII, two-byte character right before the NUL, invalid byte before the NUL, invalid byte after the NUL, trailing space / newline before the NUL}; tag level, zero and marker padding");
+    ctx.bound("parse_long", "declared contents of every length 0..=80 and 255..257, 1023..1025, 4095..4097, 65535..65537, 2^20 + 1, 2^24 - 1..2^24 + 1 (quick tier: 2^24 + 1 with the NUL as last byte only): first NUL at position {none, 0, len/2, len-2, len-1} x {ASCII, two-byte character right before the NUL, invalid byte before the NUL, invalid byte after the NUL, trailing space / newline before the NUL}; tag level, zero and marker padding");
     for kind in KINDS.iter() {
         for len in (0..=80usize).chain([255, 256, 257, 1023, 1024, 1025, 4095, 4096, 4097, 65535, 65536, 65537, (1 << 20) + 1, (1 << 24) - 1, 1 << 24, (1 << 24) + 1]) {
-            if len > (1 << 21) && ctx.quick() {
-                continue; // 16 MiB texts: thorough tier only
+            // 16 MiB texts: the quick tier keeps one length and one shape only
+            let huge_quick = len > (1 << 21) && ctx.quick();
+            if huge_quick && len != (1 << 24) + 1 {
+                continue;
             }
             let arena = if len > 5000 { large } else { small };
             let mut nulpos: Vec<Option<usize>> = vec![None];
@@ -211,7 +213,13 @@ fn parse_long(ctx: &mut Ctx, small: &Arena, large: &Arena) {
                 }
             }
             for np in nulpos {
+                if huge_quick && np != Some(len - 1) {
+                    continue;
+                }
                 for variant in 0..6 {
+                    if huge_quick && variant != 0 {
+                        continue;
+                    }
                     let mut content: Vec<u8> = (0..len).map(|i| b'a' + (i % 26) as u8).collect();
                     if let Some(p) = np {
                         content[p] = 0;
@@ -265,7 +273,7 @@ fn build_side(ctx: &mut Ctx) {
     use multiboot2::MaybeDynSized;
     const SYMS: [&str; 6] = ["a", "\u{e9}", "\u{20ac}", "\0", " ", "\n"];
     let maxsym = if ctx.quick() { 4 } else { 6 };
-    ctx.bound("build", format!("all strings over {{a, e-acute (2 bytes), euro sign (3 bytes), NUL, space, newline}} up to {} symbols plus strings of every length 0..=300 and 1023..1025, 4095..4097, 65535..65537, 2^24-1..2^24+1 in the thorough tier (ASCII, and with a multi-byte last character), and every ASCII character plus 23 other code points (encoding-length boundaries, BOM, zero-width / line / paragraph separators, no-break and ideographic space, case-folding specials) alone / first / last / doubled / next to a space, for CommandLineTag::new, BootLoaderNameTag::new and ModuleTag::new", maxsym));
+    ctx.bound("build", format!("all strings over {{a, e-acute (2 bytes), euro sign (3 bytes), NUL, space, newline}} up to {} symbols plus strings of every length 0..=300 and 1023..1025, 4095..4097, 65535..65537, 2^24-1..2^24+1 (quick tier: 2^24 only) (ASCII, and with a multi-byte last character), and every ASCII character plus 23 other code points (encoding-length boundaries, BOM, zero-width / line / paragraph separators, no-break and ideographic space, case-folding specials) alone / first / last / doubled / next to a space, for CommandLineTag::new, BootLoaderNameTag::new and ModuleTag::new", maxsym));
     let mut texts: Vec<String> = Vec::new();
     for n in 0..=maxsym {
         for code in 0..6usize.pow(n as u32) {
@@ -280,7 +288,11 @@ fn build_side(ctx: &mut Ctx) {
     }
     for n in (0..=300usize).chain([1023, 1024, 1025, 4095, 4096, 4097, 65535, 65536, 65537, (1 << 24) - 1, 1 << 24, (1 << 24) + 1]) {
         if n > (1 << 21) && ctx.quick() {
-            continue; // 16 MiB texts: thorough tier only
+            // 16 MiB texts: the quick tier keeps one length, ASCII only
+            if n == (1 << 24) {
+                texts.push((0..n).map(|i| (b'A' + (i % 26) as u8) as char).collect());
+            }
+            continue;
         }
         texts.push((0..n).map(|i| (b'A' + (i % 26) as u8) as char).collect());
         if n >= 2 {
